@@ -254,7 +254,7 @@ def refuse_matrix(rng, alg, fam):
     B = BLOCK[alg]
     out = []
     for state in ("fresh", "idle", "inflight-body", "inflight-pad", "complete"):
-        for f in (0, 1, 2, 3, 8):
+        for f in (0, 1, 2, 3, 8, 0x20, 0x100, 0x10000, 0x40000000, 0x7ffffffc):
             b = rng.randrange(2, 1 << 20)
             cmds = ["hmgr %s %s 2" % (alg, fam)]
             if state == "idle":
@@ -267,6 +267,10 @@ def refuse_matrix(rng, alg, fam):
                 cmds += ["hsub 0 3 %d 0 %d e" % (b, rng.randrange(0, 3 * B)), "hdrain 4"]
             cmds.append("hsub 0 %d %d 5000 %d %s" % (f, b, rng.choice([0, 1, B, B + 7]), pick_place(rng)))
             cmds.append("hsub 1 3 %d 9000 %d e" % (b + 1, rng.randrange(0, 2 * B)))     # an unrelated context alongside
+            cmds.append("hdrain 6")
+            # whatever happened to the probe, the message in progress is then finished (a refusal must not have cost it data);
+            # the spec refuses this LAST where the context is fresh or complete
+            cmds.append("hsubw 0 2 %d 7000 %d e" % (b, rng.choice([0, 5, B + 3])))
             cmds += ["hdrain 6", "hend"]
             out.append(cmds)
     return out
